@@ -52,9 +52,12 @@ class TmpCwd:
 @st.composite
 def sl_specs(draw, tier):
     cs = draw(crystal_specs(max_unit=4, kinds=("hall", "proto", "centred", "p1"), masses=True))
+    from gen.crystals import supercell_matrices
+
     return {"crystal": cs, "key": draw(keys), "n": draw(st.sampled_from([[1, 1, 1], [2, 1, 1], [1, 2, 1], [2, 2, 1]])),
+            "smat": draw(st.one_of(st.none(), supercell_matrices(max_det=4))),  # None: the diagonal matrix n
             "pmat": draw(st.sampled_from(["none", "auto"])), "labels": draw(st.booleans()), "magmom": draw(st.sampled_from(["none", "none", "collinear"])),
-            "dataset": draw(st.sampled_from(["type1", "type2", "type2_energies", "none"])),
+            "dataset": draw(st.sampled_from(["type1", "type2", "type2_energies", "none", "type1_noforces", "type2_noforces"])),
             "fc": draw(st.sampled_from(["full", "compact", "none"])), "nac": draw(st.sampled_from(["none", "wang", "gonze"])),
             "calc": draw(st.sampled_from(CALCS)), "compression": draw(st.sampled_from([False, False, "xz", True])),
             "settings": draw(st.sampled_from([None, {"force_constants": True}, {"force_constants": False}, {"force_sets": False},
@@ -81,19 +84,24 @@ def build_phonopy(spec):
     if spec["magmom"] == "collinear":
         mag = np.round(rng.normal(size=len(symbols)), 3).tolist()
     cell = PhonopyAtoms(symbols=symbols, cell=cell.cell, scaled_positions=cell.scaled_positions, masses=masses, magnetic_moments=mag)
-    if len(cell) * int(np.prod(spec["n"])) > 24:
+    S = np.diag(spec["n"]) if spec.get("smat") is None else np.array(spec["smat"])
+    if len(cell) * int(round(abs(np.linalg.det(S)))) > 24:
         return None
     from phonopy.interface.calculator import get_default_physical_units
 
     try:
         # the object is built with its calculator's default unit factor, which is what load() assumes for that calculator
-        ph = Phonopy(cell, supercell_matrix=np.diag(spec["n"]), primitive_matrix=None if spec["pmat"] == "none" or mag is not None else "auto",
+        ph = Phonopy(cell, supercell_matrix=S, primitive_matrix=None if spec["pmat"] == "none" or mag is not None else "auto",
                      calculator=spec["calc"], factor=get_default_physical_units(spec["calc"])["factor"], log_level=0)
     except Exception:
         return None
     n = len(ph.supercell)
     fc = springs_fc(ph.supercell) * spec["mag"]
-    if spec["dataset"] == "type1":
+    if spec["dataset"] == "type1_noforces":
+        ph.generate_displacements(distance=0.03)
+    elif spec["dataset"] == "type2_noforces":
+        ph.generate_displacements(number_of_snapshots=3, random_seed=int(spec["key"]) % 1000, distance=0.03)
+    elif spec["dataset"] == "type1":
         ph.generate_displacements(distance=0.03)
         forces = []
         for d in ph.dataset["first_atoms"]:
@@ -117,14 +125,15 @@ def build_phonopy(spec):
     return ph
 
 
-def cells_equal(a, b, what):
-    # unit cell: as printed; supercell / primitive cell are rebuilt from it on load (integer combinations: a few half-ulps)
-    ok, d = close(a.cell, b.cell, 0.5e-15 if what == "unitcell" else 6e-15)
+def cells_equal(a, b, what, amp=1.0):
+    # unit cell: as printed; supercell / primitive cell are rebuilt from it on load: integer (or centring-fraction) combinations of
+    # three printed numbers each, so the half-ulp of the text is amplified by amp = 3 * max|matrix entry| (+ rounding)
+    ok, d = close(a.cell, b.cell, 0.5e-15 if what == "unitcell" else 4e-15 * max(1.5, amp))
     if not ok:
         return "%s lattice differs by more than the %%21.15f half-ulp (excess %.2e)" % (what, d)
     da = a.scaled_positions - b.scaled_positions
     da -= np.rint(da)
-    if np.abs(da).max() > (0.51e-15 if what == "unitcell" else 6e-15) + 8 * EPS:
+    if np.abs(da).max() > (0.51e-15 if what == "unitcell" else 4e-15 * max(1.5, amp)) + 8 * EPS:
         return "%s positions differ: %.3e" % (what, np.abs(da).max())
     if list(a.symbols) != list(b.symbols):
         return "%s symbols differ: %s vs %s" % (what, a.symbols, b.symbols)
@@ -162,7 +171,7 @@ def run_save_load(spec):
         s = settings or {}
         errs = []
         for nm in ("unitcell", "supercell", "primitive"):
-            e = cells_equal(getattr(ph2, nm), getattr(ph, nm), nm)
+            e = cells_equal(getattr(ph2, nm), getattr(ph, nm), nm, amp=float(np.abs(ph.supercell_matrix).max()))
             if e:
                 errs.append(e)
         if not np.array_equal(ph2.supercell_matrix, ph.supercell_matrix):
@@ -175,7 +184,7 @@ def run_save_load(spec):
             errs.append("calculator %r reloaded as %r" % (ph.calculator, ph2.calculator))
         # dataset
         want_disp = s.get("displacements", True) and ph.dataset is not None
-        want_forces = s.get("force_sets", True) and ph.dataset is not None
+        want_forces = s.get("force_sets", True) and ph.dataset is not None and not spec["dataset"].endswith("noforces")
         if want_disp:
             if ph2.dataset is None:
                 errs.append("dataset missing after reload")
@@ -245,7 +254,9 @@ def run_save_load(spec):
             return Out(ok=False, msg="save/load (dataset %s, fc %s, nac %s, calculator %s, settings %r, compression %r, load compact %s): %s"
                        % (spec["dataset"], spec["fc"], spec["nac"], spec["calc"], settings, spec["compression"], spec["load_compact"], "; ".join(errs)))
     nsec = (spec["dataset"] != "none") + (spec["fc"] != "none") + (spec["nac"] != "none")
-    return Out(ok=True, nontrivial=nsec >= 2, classes=["ds:" + spec["dataset"], "fc:" + spec["fc"], "nac:" + spec["nac"], "calc:%s" % spec["calc"],
+    return Out(ok=True, nontrivial=nsec >= 2, classes=["smat:" + ("diag" if spec.get("smat") is None or not np.any(np.array(spec["smat"]) - np.diag(np.diag(spec["smat"]))) else
+                                                                 ("nonsym" if np.any(np.array(spec["smat"]) != np.array(spec["smat"]).T) else "sym_nondiag")),
+                                                       "ds:" + spec["dataset"], "fc:" + spec["fc"], "nac:" + spec["nac"], "calc:%s" % spec["calc"],
                                                        "mag:%g" % spec["mag"], "xz" if spec["compression"] else "plain", "labels" if spec["labels"] else "plain_symbols"])
 
 
